@@ -918,7 +918,11 @@ class Interp(Exec):
                 if ok1 and ok2:
                     return self.alloc(st, HList(h.items[a:b]))
             if isinstance(h, HObj):
-                return self.call_method(st, obj, "__getitem__", [VTuple([lo or VNone(), hi or VNone()])], {"__slice__": True}, node)
+                # obj[a:b] on a class with __getitem__: the method receives slice(a, b), modelled as the value record
+                # "slice" (start, stop) of the schema; open-ended slices of objects are not modelled
+                if "slice" in self.schema.classes and lo is not None and hi is not None and step is None:
+                    return self.call_method(st, obj, "__getitem__", [VRec("slice", ("start", "stop"), (lo, hi))], {}, node)
+                raise Unsupported("open-ended slice of an object")
         raise Unsupported(f"slice of {obj!r}")
 
     def ev_Lambda(self, node, st):
